@@ -15,7 +15,7 @@ m = {
         "enable": "RUSTFLAGS=\"--cfg brotli_verif\" (set in /verif/harness/.cargo/config.toml; the harness crate path-depends on /repo and is rebuilt from the current working tree by every check)",
         "baseline_off_cmd": "cd /repo && cargo test --workspace --no-fail-fast --offline",
         "source_commits": hooks_commits,
-        "add_only": True,
+        "add_only": False,
     },
     "engines": [
         {"name": "lean-proofs", "path": "lean/BV/Props", "serves_properties": sorted(PROPS.keys()), "kind_free_text": "Lean 4 property theorems over executable models (lake build + #print axioms audit)"},
@@ -24,7 +24,7 @@ m = {
     ],
     "checks": [],
     "not_applicable": [],
-    "notes": "Technique family: machine-checked proof in Lean 4 over hand-written executable models, tied to /repo by regeneration of data items and by a correspondence run on every check; see DESIGN.md.",
+    "notes": "hooks.add_only is false for exactly one place: in src/enc/worker_pool.rs the line `use std::sync::{Arc, Condvar, Mutex};` became two cfg alternatives and the two mentions of std::thread::{spawn, JoinHandle} go through aliases, so that the scheduler shim can be substituted under the guard; every other hook only adds code. Technique family: machine-checked proof in Lean 4 over hand-written executable models, tied to /repo by regeneration of data items and by a correspondence run on every check; see DESIGN.md.",
 }
 for pid in ALL:
     if pid in PROPS and PROPS[pid].get("claimed", True):
